@@ -112,6 +112,15 @@ def session_event(tid: str, cfg: Dict[str, Any], res: Dict[str, Any], kind: str,
                     f['keys_ok'] = f['keys_ok'] and ok
         except ValueError:
             pass
+    # the log as it was on disk each time a seat was told "End of session"
+    snaps_ok = True
+    for snap in res.get('end_snapshots', []):
+        try:
+            doc = json.loads(snap) if snap is not None else None
+            snaps_ok = snaps_ok and isinstance(doc, dict) and len(doc.get('logs', [])) == len(boards)
+        except ValueError:
+            snaps_ok = False
+    f['complete_when_declared_over'] = snaps_ok
     seats = res['seat_threads']
     done = {'verdict': res['verdict'], 'main_exc': res['main_exc'] is not None,
             'main_done': res['main_done'],
@@ -231,7 +240,8 @@ def normal_jobs(r, n: int, prefix: str, max_boards: int = 3) -> List[tuple]:
                'teams': (rand_id(r).strip() or 'a', rand_id(r).strip() or 'b'),
                'twice': k % 8 == 6,
                # the command line ends the process when Server.run returns
-               'exit_after_run': k % 4 == 1}
+               'exit_after_run': k % 4 == 1,
+               'stale_output': k % 6 == 2}
         if k % 9 == 4:
             # team names outside ASCII
             cfg['teams'] = (r.choice(['Équipe Zürich', '東京', 'Ünïcødé']) + rand_id(r).strip(),
@@ -464,7 +474,9 @@ def abort_jobs(r, n: int, prefix: str) -> List[tuple]:
         styles = [{'auction': 'weak', 'passout_boards': set()} for _ in range(4)]
         cfg: Dict[str, Any] = {'boards': boards, 'seed': r.randrange(1 << 30), 'styles': styles,
                                'vary': q % 2 == 0,
-                               'policy_spec': POLICIES[q % len(POLICIES)]}
+                               'policy_spec': POLICIES[q % len(POLICIES)],
+                               # the output path already holds an earlier session's log
+                               'stale_output': q % 3 == 1}
         if kind == 'interrupt':
             # main's scheduling points: about 20 for admission, then per board
             # 2 barriers + calls + 13 sleeps + 52 gets; any point after seating
@@ -632,6 +644,16 @@ def run_into(chk: Check, pid: str, tier: str) -> None:
         if pid == 'C08':
             jobs += schedule_jobs(r, 24 if quick else 600, 'k')
     events = pmap(run_job, jobs, chunk=2)
+    if pid in ('C08', 'C09', 'C10', 'C11'):
+        # the same table manager and clients in an interpreter that strips
+        # assert statements (-O / PYTHONOPTIMIZE): sessions mean the same there
+        from .core import run_optimized
+        ojobs = [('O' + t_, c_, k_, n_) for (t_, c_, k_, n_) in normal_jobs(r, 4 if quick else 60, 'n')
+                 if 'second' not in c_][:4 if quick else 60]
+        oevents = run_optimized('harness.table', 'run_job', ojobs)
+        chk.extra['sessions_under_python_O'] = len(ojobs)
+        jobs = jobs + ojobs
+        events = events + oevents
     extra_events = [e.pop('second_event') for e in events if 'second_event' in e]
     for (tid, cfg, kind, comp), e in zip(jobs, events):
         chk.evaluations += 1
